@@ -17,6 +17,7 @@ import (
 	"fmt"
 	"runtime/debug"
 	"strings"
+	"sync/atomic"
 	"time"
 )
 
@@ -185,8 +186,8 @@ func (e *DFS) Explore() {
 	for len(stack) > 0 {
 		it := stack[len(stack)-1]
 		stack = stack[:len(stack)-1]
-		if !e.Deadline.IsZero() && time.Now().After(e.Deadline) {
-			e.Capped = "deadline"
+		if why := Expired(e.Deadline); why != "" {
+			e.Capped = why
 			return
 		}
 		if e.MaxExecs > 0 && e.Execs >= e.MaxExecs {
@@ -235,4 +236,20 @@ func (e *DFS) Explore() {
 			stack = append(stack, kids[i])
 		}
 	}
+}
+
+// MemoryPressure is set by the worker runtime while the process's heap is above
+// its share of the machine's memory; searches treat it like an expired deadline
+// (they stop and report the cap, never a verdict about what was not explored).
+var MemoryPressure atomic.Bool
+
+// Expired tells why a search has to stop now ("" = it does not).
+func Expired(deadline time.Time) string {
+	if MemoryPressure.Load() {
+		return "memory limit"
+	}
+	if !deadline.IsZero() && time.Now().After(deadline) {
+		return "deadline"
+	}
+	return ""
 }
